@@ -5,7 +5,8 @@ Streams (model `Wpull.Request` vs the real code in the repo under test):
            strategies (redirect cycles and unbounded chains over 301/302/303/307/308, missing / unparsable
            Location, Location on non-redirects, 401 for ever, 401 alternating with redirects, 5xx, closed
            connections, garbage) x max_redirects 0..6: number of requests, outcome and last status vs the model
-  crawl    (also with robots.txt enabled: /robots.txt perpetually 5xx / reset, 5xx then 200, disallowing, cycles)
+  crawl    (also hosts that refuse every connection / fail every DNS lookup x --retry-connrefused / --retry-dns-error / neither;
+           and with robots.txt enabled: /robots.txt perpetually 5xx / reset, 5xx then 200, disallowing, cycles)
            trace acceptance, end to end: the REAL application (Builder -> pipeline, URL table, web processor,
            FetchRule/ResultRule, TriesFilter, WebClient) against the same strategies x tries 0..4: the visits of
            the URL as seen at the URL table (requests per visit, status and try_count checked in) vs the model
@@ -160,13 +161,16 @@ def check_crawl(ctx, case):
     robots = None
     if case.get('robots') is not None:
         robots = {'replies': case['robots'], 'disallow': bool(case.get('robots_disallow'))}
-    res = rc.run_crawl(case['url'], replies, tries, m, login=login, robots=robots)
+    res = rc.run_crawl(case['url'], replies, tries, m, login=login, robots=robots,
+                       host_fail=case.get('host_fail'), retry=case.get('retry'))
     real = ','.join('%d:%d:%s:%d' % (v['requests'], v['robots_requests'], v['status'], v['try_count']) for v in res['visits']) or '-'
     line = rc.session_line(res, m, True, [], login, 'GET', op='crawl', tries=tries)
     model = ctx.model.ask([line])[0]
     tags = ['crawl:' + case.get('name', 'random'), 'crawl:tries=%d' % tries, 'crawl:visits=%d' % len(res['visits']),
             'crawl:robots=' + (case.get('robots_name', 'on') if robots else 'off')]
-    ctx.case(('crawl', repr(case)), nontrivial=len(res['hops']) + len(res['rhops']) > 0, tags=tags)
+    if case.get('host_fail'):
+        tags.append('crawl:host=%s,%s' % (case['host_fail'], case.get('retry') or 'no-retry-option'))
+    ctx.case(('crawl', repr(case)), nontrivial=len(res['hops']) + len(res['rhops']) + res.get('attempts', 0) > 0, tags=tags)
     if res['hung'] or res['capped']:
         ctx.fail('no-termination', 'Application.run', case,
                  'the crawl did not end: %d check-outs of the URL with tries=%d (%d page requests, %d robots.txt requests so far); '
@@ -260,6 +264,12 @@ def run(ctx):
             script = script[:9]       # unlimited tries: the script must end (then 200)
         check_crawl(ctx, {'stream': 'crawl', 'name': name, 'url': 'http://a.example/x', 'replies': script, 'tries': tries,
                           'max_redirects': m, 'login': login})
+    # host-level failures: every connection attempt refused / every DNS lookup fails, with and without the retry options
+    for host_fail in ('refused', 'dns'):
+        for retry in (None, '--retry-connrefused', '--retry-dns-error'):
+            for tries in ((1, 2, 3) if thorough or retry else (2,)):
+                check_crawl(ctx, {'stream': 'crawl', 'name': 'host-' + host_fail, 'url': 'http://a.example/x', 'replies': [], 'tries': tries,
+                                  'max_redirects': 2, 'login': None, 'host_fail': host_fail, 'retry': retry})
     # robots.txt enabled: the server also controls the robots.txt answers
     pages = strategies(40)
     rtodo = []
